@@ -172,6 +172,13 @@ class Check:
         self.obligations.append(o)
         return o
 
+    def discharged_inline(self, name, kind, function=None, backend="z3 5.1.0 API in-process (path-condition relaxation)"):
+        """a side obligation that the engine discharged while executing the path (dropping hypotheses is sound)"""
+        o = Obligation(f"{self.prop}/{name}", kind, function)
+        o.status, o.backend, o.detail = "discharged", backend, "implied by the (relaxed) path condition"
+        self.obligations.append(o)
+        return o
+
     def error(self, msg):
         self.errors.append(msg)
 
@@ -461,18 +468,50 @@ def _jsonable(x):
     return repr(x)
 
 
-def smt_thunk(pc, goal, timeout=30, logic="auto", defs=(), strings=False):
+def _instantiate(assertions, bound, extent_vars):
+    """replace every top-level universally quantified assertion by its instances over 0..bound for each bound
+    variable and cap the given extent variables: a quantifier-free query whose model (if any) is a candidate
+    counterexample (DESIGN 3.4: quantified VCs that stop verifying come back unknown, not sat)"""
+    import itertools
+
+    import z3
+    out = []
+    for a in assertions:
+        if z3.is_quantifier(a) and a.is_forall():
+            n = a.num_vars()
+            for vals in itertools.product(range(bound + 1), repeat=n):
+                # de Bruijn: variable 0 is the *last* bound variable
+                out.append(z3.substitute_vars(a.body(), *[z3.IntVal(v) for v in reversed(vals)]))
+        else:
+            out.append(a)
+    for v in extent_vars:
+        out.append(v <= bound)
+    return out
+
+
+def smt_thunk(pc, goal, timeout=30, logic="auto", defs=(), strings=False, instantiate=None):
     """VC  (and pc defs) -> goal.  The SMT-LIB text is built *now* (z3's Python API is not thread-safe);
-    the returned thunk only runs solver processes."""
+    the returned thunk only runs solver processes.  ``instantiate=(bound, extent_vars)``: when every solver
+    answers unknown on a quantified VC, retry with the axioms instantiated over small extents to obtain a
+    candidate counterexample."""
     import z3
 
     from . import smt
     assertions = list(pc) + list(defs) + [z3.Not(goal)]
     lg = smt.guess_logic(assertions) if logic == "auto" else logic
     text = smt.to_smt2(assertions, lg)
+    text2 = None
+    if instantiate is not None and any(z3.is_quantifier(a) for a in assertions):
+        inst = _instantiate(assertions, instantiate[0], instantiate[1])
+        text2 = smt.to_smt2(inst, None)
 
     def thunk():
         status, backend, secs, model, raw = smt.portfolio(text, timeout, strings=strings)
+        if status not in ("sat", "unsat") and text2 is not None:
+            st2, be2, secs2, model2, raw2 = smt.portfolio(text2, timeout, strings=strings)
+            if st2 == "sat":
+                return "refuted", be2, secs + secs2, model2, raw + " || finite instantiation of the axioms (extents <= %d): %s" % (instantiate[0], raw2)
+            raw = raw + " || finite instantiation: " + raw2
         verdict = {"unsat": "proved", "sat": "refuted"}.get(status, "unknown")
         return verdict, backend, secs, model, raw
     return thunk
